@@ -147,9 +147,26 @@ class Gen:
     def parse_string(self):
         r = self.r
         x = r.random()
+        last = getattr(self, "last_str", None)
+        if last is not None and r.random() < 0.2:
+            # a close relative of the previous accepted line: the same line again, or one hexadecimal digit changed (more often
+            # than not one of the last three: the error byte and the low digit of block D) — a converter or dispatcher that
+            # remembers the previous line shows only here
+            s = bytearray(last)
+            if getattr(self, "ascii_only", False):
+                # streams that promise "no byte >= 0x7F is presented" may only touch the error byte
+                if len(s) == 18 and r.random() < 0.7:
+                    s[r.randrange(16, 18)] = r.choice(b"0123456789abcdefABCDEF")
+            elif r.random() < 0.7:
+                k = r.randrange(len(s) - 3, len(s)) if r.random() < 0.6 else r.randrange(len(s))
+                s[k] = r.choice(b"0123456789abcdefABCDEF")
+            self.count("str_relative")
+            self.last_str = bytes(s)
+            return hexstr(s)
         if x < 0.55:
             self.count("str_ok")
-            return hexstr(self.hexgroup_ok())
+            self.last_str = bytes(self.hexgroup_ok())
+            return hexstr(self.last_str)
         if x < 0.6:
             self.count("str_null")
             return "s N"
@@ -345,6 +362,13 @@ def sweep_confusable(g0=None):
     if g0:
         for p_, cp in sorted(g0.items()):
             if cp < 256 and cp != p_ and 0x20 <= cp: pairs.append((p_, cp))
+        # … and bytes whose code points coincide once truncated to 8 or 12 bits (U+2030 '‰' and U+0030 '0'): a comparison or a
+        # "did it change" test done in a narrower type than the character shows only on these
+        items = sorted(g0.items())
+        for i, (p_, cp) in enumerate(items):
+            for q_, cq in items[i + 1:]:
+                if cp != cq and (cp % 256 == cq % 256 or cp % 4096 == cq % 4096) and (p_, q_) not in pairs:
+                    pairs.append((p_, q_))
     else:
         pairs = [(0xAB, 0x24), (0x24, 0xA4), (0x7E, 0xAF), (0x8E, 0xA1), (0x91, 0xE4), (0x97, 0xFC), (0xD1, 0xC4), (0xD7, 0xDC)]
     out = ["new"] + ALL_CBS
@@ -536,6 +560,27 @@ def hex_stateful(seed=0):
             k = r.randrange(len(v)); w = bytearray(v); w[k] = r.choice(b"gG xX-+\x7f\x80\xff"); rel += [bytes(w), v]
             w = bytearray(v); w[k] = ord("0123456789abcdef"[(int(chr(v[k]), 16) + 1) % 16]); rel += [bytes(w), bytes(w) + b"\n"]
             for x in rel: out.append(hexstr(x))
+    return out
+
+def ct_strings(seed=0, n=350):
+    """clock-time groups delivered through the string API, each followed by close relatives of the same line (one of the
+    last three hexadecimal digits changed: the error levels of blocks A..D and the low offset bits)"""
+    import random
+    r = random.Random(seed * 104729 + 12)
+    g = Gen(seed, "ctstr")
+    out = ["new"] + ALL_CBS
+    for i in range(n):
+        v = [int(x) for x in g.group(gtype=4, ver=0, zero=1.0).split()[1:]]
+        if i % 40 == 39: out.append("clear")
+        e = r.choice([0, 0, 0, 1, 2, 3, 4, 8, 12, 16, 64, r.randrange(256)])
+        line = ("%04X%04X%04X%04X%02X" % (v[0], v[1], v[2], v[3], e)).encode()
+        out.append(hexstr(line))
+        for _ in range(r.randrange(1, 4)):
+            w = bytearray(line)
+            k = r.randrange(len(w) - 3, len(w))
+            w[k] = r.choice(b"0123456789ABCDEF")
+            out.append(hexstr(bytes(w)))
+            if r.random() < 0.5: line = bytes(w)
     return out
 
 def hex_all_blocks(stride=1, phase=0):
